@@ -1,5 +1,6 @@
 # C16 - grammar-pool serialisation: the engine's block-buffered stream
-CLAIMS = {'engine_raw': 'XSerializeEngine::write(bytes,len)/read(bytes,len) for every run position/length relative to the 16-byte block (PRE < 16 leading bytes, LEN <= RAWMAX): run and the following items read back', 'engine': 'XSerializeEngine operator<< / operator>> for XMLByte, XMLCh, int, unsigned int, unsigned long, bool + alignment + block flush/fill: load(store(script)) == script for every script of K items over a 16-byte block'}
+CLAIMS = {'storedv': 'DatatypeValidator::storeDV as a path gate: by-name encoding exactly when the registry holds this very validator object, by-value otherwise, null marker for none',
+ 'engine_raw': 'XSerializeEngine::write(bytes,len)/read(bytes,len) for every run position/length relative to the 16-byte block (PRE < 16 leading bytes, LEN <= RAWMAX): run and the following items read back', 'engine': 'XSerializeEngine operator<< / operator>> for XMLByte, XMLCh, int, unsigned int, unsigned long, bool + alignment + block flush/fill: load(store(script)) == script for every script of K items over a 16-byte block'}
 ASSUMPTIONS = ['engine objects built field by field (object pools not used by primitive items)', 'streams: collector / replayer of whole blocks', 'float/double items excluded (bit copies; floating point declined)']
 HARNESSES = [
  dict(name='engine', entry='harness_engine', srcs=['C16/engine.cpp'], tus=['internal/XSerializeEngine.cpp', 'util/XMLString.cpp', 'framework/BinOutputStream.cpp', 'util/BinInputStream.cpp'],
@@ -8,6 +9,8 @@ HARNESSES = [
  dict(name='engine_raw', entry='harness_engine_raw', srcs=['C16/engine.cpp'], tus=['internal/XSerializeEngine.cpp', 'util/XMLString.cpp', 'framework/BinOutputStream.cpp', 'util/BinInputStream.cpp'],
       cuts=['_ZN11xercesc_4_09XMLString9binToTextE*', '_ZN11xercesc_4_09XMLString10sizeToTextE*'],
       defs={'quick': {'RAWMAX': 20}, 'thorough': {'RAWMAX': 36}}, unwind=20, unwind_cap=48, timeout={'quick': 900, 'thorough': 3000}, mem_gb=16),
+ dict(name='storedv', entry='harness_storedv', srcs=['C16/storedv.cpp', 'C16/dvstubs.cpp'], tus=['validators/datatype/DatatypeValidator.cpp'],
+      cuts_everywhere=['_ZN11xercesc_4_014RefHashTableOfINS_17DatatypeValidatorENS_12StringHasherEE3getEPKv'], unwind=4, timeout=600),
 ]
 LEVEL_TEXT = ('Bounded model checking of the real serialisation engine stream: for ALL scripts of primitive items (types and values symbolic) the load side reads back exactly what the store side wrote, across block '
               'boundaries and alignment padding, with both cursors inside their buffers.')
